@@ -77,6 +77,8 @@ pub trait Source {
             Dom::Full => Float::from_bits(self.bits64() as _),
             // concrete: lets a data-dependent branch in the code under test be taken concretely
             Dom::Neg1 => -1.0,
+            Dom::Zero => 0.0,
+            Dom::Two => 2.0,
         }
     }
     fn vals(&mut self, n: usize, d: Dom) -> Vec<Float> {
@@ -98,6 +100,9 @@ pub enum Dom {
     Full,
     /// the constant -1 (no solver variable): an all-inactive relu input
     Neg1,
+    /// the constants 0 and 2 (no solver variables): fully concrete histories
+    Zero,
+    Two,
 }
 
 // ---------------------------------------------------------------------------------
